@@ -24,7 +24,7 @@ type Prop struct{}
 
 func (Prop) ID() string     { return "C05" }
 func (Prop) Level() string  { return "fault_enumeration" }
-func (Prop) QuickRuns() int { return 4000 }
+func (Prop) QuickRuns() int { return 7000 }
 func (Prop) Rule() string {
 	return "each run = one generated scenario (1-6 policies biased to context attribute access, whole-composite comparison, in/has and errors; entity store or nil; request template with variables in principal/action/resource and nested in context records and sets, the same variable used several times, several variables, value lists of length 0-3, product <= 64; PolicySet or custom iterator; tape-chosen map iteration orders). Every scenario is executed fault-free against the harness' own Cartesian enumeration + substitution + cedar.Authorize, then with the callback failing at EVERY k in 1..N, the callback cancelling the context at EVERY k, the context cancelled before the call, and the context cancelled at sampled logical-clock instants (incl. the instant each callback starts). Non-trivial iff the product has >= 2 elements and at least one variable is nested in the context; distinct = distinct hash of the scenario tape."
 }
